@@ -35,7 +35,12 @@ func c08Scenarios() []c08Scenario {
 		bigPull = append(bigPull, inc(0))
 	}
 	bigPull = append(bigPull, syn(0), syn(1), inc(1), syn(1), syn(0))
+	inck := func(r int, k string) pt.Action { return pt.Action{Op: "inc", R: r, P: 1, T: k + "|"} }
 	return []c08Scenario{
+		// every request carries two datatypes: their packs are served side by side, the failure of one of them must not
+		// leave the other one (or its key) unusable
+		{"counter-two-datatypes-per-request", E2Params{Clients: 2, Type: "counter", Keys: []string{"k1", "k2"}, Tolerant: true, Prefix: "joined"},
+			[]pt.Action{inck(0, "k1"), inck(0, "k2"), syn(0), syn(1), inck(1, "k2"), syn(1), inck(0, "k1"), syn(0)}},
 		{"counter-pull-of-105", E2Params{Clients: 2, Type: "counter", Tolerant: true, Prefix: "joined"}, bigPull},
 		{"counter-soc", E2Params{Clients: 2, Type: "counter", Tolerant: true},
 			[]pt.Action{open(0, "soc"), inc(0), syn(0), open(1, "soc"), syn(1), inc(1), inc(0), syn(1), syn(0)}},
